@@ -586,12 +586,16 @@ package state
 // AddWithdrawRecord: the record is queued and one validatorAddUBDChange pointing to it is journalled (validator journal).
 //@ func (*StateDB).AddWithdrawRecord props C09
 //@ panics none
-//@ requires st != nil && c09JournalWF(st.validatorJournal) && record != nil
+//@ requires c09StateOK(st) && record != nil
 //@ requires [queue-loaded] hastype(st.withdrawQueue.v, *WithdrawQueue) && unbox(st.withdrawQueue.v, *WithdrawQueue) != nil
 //@ let j = st.validatorJournal
 //@ let q = unbox(st.withdrawQueue.v, *WithdrawQueue)
 //@ modifies st.withdrawQueue, st.dbErr, q.Records, elems(q.Records), j.entries, elems(j.entries), mapof(j.dirties)
 //@ ensures [queued] len(q.Records) == old(len(q.Records)) + 1 && q.Records[len(q.Records) - 1] == record
+// Typestate: the withdraw queue is validator-side state. RevertToSnapshot undoes validator-side changes by cutting the VALIDATOR journal at the
+// index recorded in valValidRevisions; an entry in the account journal would be undone against the wrong index / survive Finalise's bookkeeping.
+//@ ensures [queue-change-in-validator-journal] len(st.validatorJournal.entries) == old(len(st.validatorJournal.entries)) + 1 &&
+//@     len(st.journal.entries) == old(len(st.journal.entries)) && st.journal.entries == old(st.journal.entries)
 //@ ensures [journalled] len(j.entries) == old(len(j.entries)) + 1 && hastype(c09Last(j), *validatorAddUBDChange) &&
 //@     unbox(c09Last(j), *validatorAddUBDChange) != nil && unbox(c09Last(j), *validatorAddUBDChange).prev == record
 //@ ensures [wf] c09JournalWF(j)
@@ -638,3 +642,160 @@ package state
 //@ ensures [installed] in(addr, st.stateObjects) && st.stateObjects[addr] != nil && fresh(st.stateObjects[addr]) && st.stateObjects[addr].data.Nonce == 0
 //@ ensures [balance-carried] old(c09Cached(st, addr)) ==> st.stateObjects[addr].data.Balance == old(was.data.Balance)
 //@ ensures [others-kept] forall a: common.Address :: a != addr ==> st.stateObjects[a] == old(st.stateObjects[a]) && in(a, st.stateObjects) == old(in(a, st.stateObjects))
+
+// ---------------------------------------------------------------------------------------------------------------
+// Memory discipline of journalled validator records. UpdateValidator(newVal, oldVal) journals `oldVal` BY REFERENCE
+// (validatorUpdateChange.oldVal) and its revert re-installs that very object: "reverting restores the validators" therefore needs that
+// between the journalling and the revert NOTHING writes through the old record — its fields, its delegation list, the entries of that
+// list, and the big integers of both. The writers are UpdateDelegation (edits a delegation entry and the totals in place) and the
+// helpers it calls; the getters that hand out parts of a live record must hand out PRIVATE COPIES of whatever their callers edit in place.
+
+// DelegationFrom.DeepCopy: a new entry with new big integers.
+//@ func (*DelegationFrom).DeepCopy props C09
+//@ panics none
+//@ requires [nonnil] d != nil && d.Stake != nil && d.Token != nil
+//@ modifies nothing
+//@ ensures [fresh] result != nil && fresh(result) && fresh(result.Stake) && fresh(result.Token) && result.Stake != result.Token
+//@ ensures [equal] result.Delegator == d.Delegator && big(result.Stake) == big(d.Stake) && big(result.Token) == big(d.Token)
+
+// Search: sort.Search over the list with a comparison closure that allocates temporaries (Address.Big): no effect on existing objects,
+// result within [0, len]. TRUSTED (the engine cannot inline an allocating closure; this is the unconditional part of sort.spec).
+//@ func (DelegationFroms).Search props C09
+//@ trusted
+//@ pure
+//@ ensures 0 <= result && result <= len(d)
+
+// GetDelegationFrom(d): nil, or a PRIVATE COPY of d's entry — never the entry of the receiver's list itself, never its big integers:
+// callers (UpdateDelegation) edit the result in place while the receiver may be the journalled old record.
+//@ func (*Validator).GetDelegationFrom props C09
+//@ panics ignored
+//@ requires [nonnil] v != nil
+//@ modifies nothing
+//@ ensures [private-copy] result != nil ==> fresh(result) && fresh(result.Stake) && fresh(result.Token) && result.Stake != result.Token
+//@ ensures [not-a-list-entry] result != nil ==> forall p: int :: { elems(v.Delegations)[p] } off(v.Delegations) <= p && p < off(v.Delegations) + len(v.Delegations) ==>
+//@     elems(v.Delegations)[p] != result
+//@ ensures [entry-of-d] result != nil ==> result.Delegator == d
+
+// UpdateDelegationFrom(d) edits the RECEIVER's list (header and backing array) and nothing else: not d, not any entry, not any big integer.
+//@ func (*Validator).UpdateDelegationFrom props C09
+//@ panics ignored
+//@ opt abstract-slices
+//@ requires [nonnil] v != nil && d != nil
+//@ modifies v.Delegations, elems(v.Delegations)
+
+// PartialCopy: the copy and everything UpdateDelegation edits in place on it are NEW objects — the record, its six amounts, and the
+// backing array of its delegation list (the entries are shared: they are replaced, never written in place). Nothing existing is written.
+//@ func (*Validator).PartialCopy props C09
+//@ panics ignored
+//@ opt abstract-slices
+//@ requires [nonnil] v != nil
+//@ modifies nothing
+//@ ensures [copy-is-new] result != nil && fresh(result) && fresh(result.Token) && fresh(result.Stake) && fresh(result.SelfToken) && fresh(result.SelfStake) &&
+//@     fresh(result.RewardsDistributable) && fresh(result.RewardsTotal)
+//@ ensures [own-list] fresh(result.Delegations) && len(result.Delegations) == len(v.Delegations)
+
+// The cells of a validator record and of its delegation list (two-state): every field except the address cache, the list header, the list's
+// backing array, and the cells of every listed entry. (Big-integer VALUES are not part of it: see UpdateDelegation below.)
+//@ spec func c09RecCellsKept(v: *Validator) bool =
+//@     v.Token == old(v.Token) && v.Stake == old(v.Stake) && v.SelfToken == old(v.SelfToken) && v.SelfStake == old(v.SelfStake) &&
+//@     v.RewardsDistributable == old(v.RewardsDistributable) && v.RewardsTotal == old(v.RewardsTotal) && v.RewardsLastSettled == old(v.RewardsLastSettled) &&
+//@     v.Role == old(v.Role) && v.Status == old(v.Status) && v.Expelled == old(v.Expelled) && v.ExpelExpired == old(v.ExpelExpired) && v.LastInactive == old(v.LastInactive) &&
+//@     v.Delegations == old(v.Delegations) && elems(v.Delegations) == old(elems(v.Delegations)) &&
+//@     (forall p: int :: { elems(v.Delegations)[p] } old(off(v.Delegations)) <= p && p < old(off(v.Delegations) + len(v.Delegations)) ==>
+//@         c09Dlg(elems(v.Delegations)[p]).Delegator == old(c09Dlg(elems(v.Delegations)[p]).Delegator) &&
+//@         c09Dlg(elems(v.Delegations)[p]).Stake == old(c09Dlg(elems(v.Delegations)[p]).Stake) &&
+//@         c09Dlg(elems(v.Delegations)[p]).Token == old(c09Dlg(elems(v.Delegations)[p]).Token))
+//@ spec func c09Dlg(p: *DelegationFrom) *DelegationFrom = p
+
+// PubToAddress hashes the key bytes (crypto): deterministic, no effect. TRUSTED.
+//@ func PubToAddress props C09
+//@ trusted
+//@ pure
+
+//@ func (*Validator).MainAddress props C09
+//@ panics ignored
+//@ requires [nonnil] v != nil
+//@ modifies v.consAddr
+
+//@ func (*StateDB).setValidator props C09
+//@ panics ignored
+//@ requires [nonnil] st != nil && val != nil && st.validatorIndex != nil
+//@ modifies val.consAddr, st.validatorObjects, mapof(st.validatorObjects.dirty), st.validatorIndex.data, mapof(st.validatorIndex.data.dirty)
+
+// params.KindOfRole reads the package-level role table: no effect.
+//@ effectfree github.com/youchainhq/go-youchain/params.KindOfRole
+// The statistics path (getValidatorsStat loads from the validator trie on a cache miss: outside the model) — ASSUMED thin frame.
+//@ func (*StateDB).getValidatorsStat props C09
+//@ nobody
+//@ requires [nonnil] st != nil
+//@ modifies st.validatorsStat, st.dbErr
+
+// incr/decrValidatorsStat write statistics counters only: the modified flag, bucket counts, and big integers IN PLACE (which ones is C08's
+// subject: (*StateDB).incrValidatorsStat#[val-unchanged] there proves the record's own amounts are not among them). Cell-level frame here.
+//@ func (*StateDB).incrValidatorsStat props C09
+//@ panics ignored
+//@ requires [nonnil] st != nil
+//@ modifies st.validatorsStatModified, st.validatorsStat, st.dbErr, all(big), all(ValKindStat.onlineCount), all(ValKindStat.offlineCount)
+
+//@ func (*StateDB).decrValidatorsStat props C09
+//@ panics ignored
+//@ requires [nonnil] st != nil
+//@ modifies st.validatorsStatModified, st.validatorsStat, st.dbErr, all(big), all(ValKindStat.onlineCount), all(ValKindStat.offlineCount)
+
+// UpdateValidator(newVal, oldVal): journals (validator journal!) one validatorUpdateChange holding BOTH records by reference and installs
+// newVal; it writes no cell of the old record except its address cache.
+//@ func (*StateDB).UpdateValidator props C09
+//@ panics ignored
+//@ requires [nonnil] st != nil && st.validatorIndex != nil && c09StateOK(st)
+//@ requires newVal != oldVal
+//@ modifies st.validatorsStatModified, st.validatorsStat, st.dbErr, newVal.consAddr, oldVal.consAddr,
+//@     st.validatorObjects, mapof(st.validatorObjects.dirty), st.validatorIndex.data, mapof(st.validatorIndex.data.dirty),
+//@     st.validatorJournal.entries, elems(st.validatorJournal.entries), mapof(st.validatorJournal.dirties),
+//@     all(big), all(ValKindStat.onlineCount), all(ValKindStat.offlineCount)
+//@ ensures [journalled] result ==> len(st.validatorJournal.entries) == old(len(st.validatorJournal.entries)) + 1 && hastype(c09Last(st.validatorJournal), validatorUpdateChange) &&
+//@     unbox(c09Last(st.validatorJournal), validatorUpdateChange).oldVal == oldVal && unbox(c09Last(st.validatorJournal), validatorUpdateChange).newVal == newVal
+//@ ensures [rejected-noop] !result ==> len(st.validatorJournal.entries) == old(len(st.validatorJournal.entries))
+//@ ensures [old-record-cells-kept] oldVal != nil ==> c09RecCellsKept(oldVal)
+//@ ensures [wf] c09JournalWF(st.validatorJournal) && st.journal == old(st.journal) && st.journal.entries == old(st.journal.entries)
+//@ ensures [own-array] base(st.validatorJournal.entries) == old(base(st.validatorJournal.entries)) || fresh(st.validatorJournal.entries)
+
+// UpdateDelegator is the ACCOUNT side (delegator's state object and the account journal). ASSUMED frame, identical to the `modifies` clause
+// VERIFIED under C08 ((*StateDB).UpdateDelegator#frame[…] in verif_contracts_c08.go; contracts cannot be shared across properties without
+// importing C08's sortedness preconditions): it writes no validator record.
+//@ func (*StateDB).UpdateDelegator props C09
+//@ nobody
+//@ requires [nonnil] st != nil
+//@ let obj = st.stateObjects[addr]
+//@ modifies st.dbErr, mapof(st.stateObjects), obj.delegations, obj.dirtyDlgs, obj.data.DelegationsHash, obj.data.DelegationBalance,
+//@     st.journal.entries, elems(st.journal.entries), mapof(st.journal.dirties)
+
+// UpdateDelegation(d, val, tokenChanged): `val` becomes the journalled old record (UpdateValidator(newVal, val)). Memory clause:
+//   * every in-place big-integer write of the body ([writes-private-copy…]) targets an object allocated DURING this call — the private
+//     copy of the delegation entry (GetDelegationFrom#[private-copy]) or an amount of the partial copy (PartialCopy#[copy-is-new]) —
+//     never something reachable from `val`;
+//   * the list edit is made on the copy ([edits-the-copy]), and the record handed to UpdateValidator as old value is `val` itself;
+//   * across the whole call no cell of `val`, of its list or of its entries changes ([old-record-cells-kept]).
+// (Values of `val`'s big integers across the statistics update inside UpdateValidator: C08, incr/decrValidatorsStat#[val-unchanged].)
+//@ func (*StateDB).UpdateDelegation props C09
+//@ panics ignored
+//@ requires [nonnil] st != nil && st.validatorIndex != nil && c09StateOK(st) && val != nil
+// the two journals have their own entry arrays (each is only ever appended to through its own journal object)
+//@ requires [journals-separate] base(st.journal.entries) != base(st.validatorJournal.entries) || base(st.journal.entries) == 0
+// the listed entries are existing objects (a tautology for references read from the heap; the engine has no such fact for slice ELEMENTS:
+// engine_requests/C09.md R8)
+//@ requires [entries-exist] forall p: int :: { elems(val.Delegations)[p] } off(val.Delegations) <= p && p < off(val.Delegations) + len(val.Delegations) ==>
+//@     allocated(c09Dlg(elems(val.Delegations)[p]))
+//@ modifies all
+//@ assert before call (*math/big.Int).Add#1: [writes-private-copy-token] fresh(a0)
+//@ assert before call (*math/big.Int).Set#1: [writes-private-copy-stake] fresh(a0)
+//@ assert before call (*math/big.Int).Add#2: [writes-copy-total-token] fresh(a0)
+//@ assert before call (*math/big.Int).Add#3: [writes-copy-total-stake] fresh(a0)
+//@ assert before call (*Validator).UpdateDelegationFrom: [edits-the-copy] fresh(a0) && a0 != val
+//@ assert before call (*Validator).UpdateDelegationFrom: [edits-own-list] fresh(a0.Delegations)
+//@ assert before call (*StateDB).UpdateValidator: [journals-the-given-record] a2 == val && fresh(a1)
+//@ ensures [old-record-cells-kept] c09RecCellsKept(val)
+//@ ensures [new-record-is-a-copy] result0 == val || fresh(result0)
+//@ ensures [one-validator-entry-at-most] len(st.validatorJournal.entries) == old(len(st.validatorJournal.entries)) || len(st.validatorJournal.entries) == old(len(st.validatorJournal.entries)) + 1
+//@ ensures [entry-holds-the-given-record] len(st.validatorJournal.entries) == old(len(st.validatorJournal.entries)) + 1 ==> hastype(c09Last(st.validatorJournal), validatorUpdateChange) &&
+//@      unbox(c09Last(st.validatorJournal), validatorUpdateChange).oldVal == val && unbox(c09Last(st.validatorJournal), validatorUpdateChange).newVal == result0
+//@ ensures [account-journal-array-own] st.validatorJournal == old(st.validatorJournal) && st.journal == old(st.journal)
